@@ -46,6 +46,8 @@ def scalar(rng):
     if rng.random() < 0.5:
         n = rng.choice([-5, -3, -2, -1, 1, 2, 3, 4, 7]); d = rng.choice([1, 2, 3, 5])
         return ('q', n, d)
+    if rng.random() < 0.3:  # built-in scalar types other than int (unsigned ones make a negation in the scalar's own type wrap)
+        return (rng.choice('uzlh'), rng.choice([2, 3, 4, 5, 7]))
     return ('i', rng.choice([-3, -2, -1, 2, 3, 4, 5]))
 
 def leaf(rng):
@@ -173,6 +175,13 @@ HIGH = [
     ('addc', ('lscale', ('l', -3), ('X', 2)), ('u', 5)),
     ('div', ('cadd', ('z', 3), ('S', 1)), ('l', 4)),
     ('neg', ('subc', ('rscale', ('D', 2), ('u', 2)), ('l', 7))),
+    # cat_10: unary minus / subtraction applied DIRECTLY to a node scaled by an unsigned scalar (a sign folded into the scalar would wrap)
+    ('neg', ('lscale', ('u', 2), ('X', 1))),
+    ('neg', ('div', ('X', 2), ('u', 2))),
+    ('neg', ('rscale', ('D', 1), ('z', 3))),
+    ('sub', ('X', 1), ('lscale', ('h', 2), ('D', 1))),
+    ('neg', ('neg', ('lscale', ('u', 3), ('S', 1)))),
+    ('mul', ('neg', ('rscale', ('X', 1), ('u', 2))), ('div', ('D', 1), ('z', 2))),
 ]
 
 def emit_unit(path, exprs, seed, unit):
@@ -206,8 +215,9 @@ def main():
     if '--high' in sys.argv:
         os.makedirs(outdir, exist_ok=True)
         emit_unit(os.path.join(outdir, 'cat_08.cpp'), HIGH[:6], seed, 8)
-        emit_unit(os.path.join(outdir, 'cat_09.cpp'), HIGH[6:], seed, 9)
-        print('wrote cat_08.cpp cat_09.cpp')
+        emit_unit(os.path.join(outdir, 'cat_09.cpp'), HIGH[6:12], seed, 9)
+        emit_unit(os.path.join(outdir, 'cat_10.cpp'), HIGH[12:], seed, 10)
+        print('wrote cat_08.cpp cat_09.cpp cat_10.cpp')
         return
     rng = random.Random(seed)
     os.makedirs(outdir, exist_ok=True)
